@@ -77,7 +77,8 @@ fn op_shift(payload: &str) -> String {
     let (pb, eb) = traced_render(&tree, w, h, ts_b).unwrap();
 
     // compare A(x,y) with B(x+dx,y+dy) over the window where both are on the canvas
-    let (mut n0, mut n1, mut n8, mut mx, mut nonblank) = (0usize, 0usize, 0usize, 0u8, 0usize);
+    let (mut n0, mut n1, mut n8, mut n64, mut mx, mut nonblank) = (0usize, 0usize, 0usize, 0usize, 0u8, 0usize);
+    let mut dbox = (u32::MAX, u32::MAX, 0u32, 0u32);
     let mut first: Option<(u32, u32)> = None;
     let mut outside = 0usize; // painted pixels of A or B outside the common window (content left the canvas)
     let (da, db) = (pa.data(), pb.data());
@@ -107,6 +108,10 @@ fn op_shift(payload: &str) -> String {
                 if first.is_none() {
                     first = Some((x as u32, y as u32));
                 }
+                dbox = (dbox.0.min(x as u32), dbox.1.min(y as u32), dbox.2.max(x as u32), dbox.3.max(y as u32));
+            }
+            if d > 64 {
+                n64 += 1;
             }
             if d > 8 {
                 n8 += 1;
@@ -129,16 +134,16 @@ fn op_shift(payload: &str) -> String {
         }
     }
     let mut out = format!(
-        "{{\"n0\":{},\"n1\":{},\"n8\":{},\"max\":{},\"nonblank\":{},\"outside\":{},\"layersA\":{},\"layersB\":{},\"moved\":{},\"not_moved\":{},\"W\":{},\"H\":{},\"scale\":{},\"ts\":[{},{},{},{},{},{}]",
-        n0, n1, n8, mx, nonblank, outside, count_layers(&ea), count_layers(&eb), moved, not_moved, w, h, s,
+        "{{\"n0\":{},\"n1\":{},\"n8\":{},\"n64\":{},\"max\":{},\"nonblank\":{},\"outside\":{},\"layersA\":{},\"layersB\":{},\"moved\":{},\"not_moved\":{},\"W\":{},\"H\":{},\"scale\":{},\"ts\":[{},{},{},{},{},{}]",
+        n0, n1, n8, n64, mx, nonblank, outside, count_layers(&ea), count_layers(&eb), moved, not_moved, w, h, s,
         ts_a.sx, ts_a.ky, ts_a.kx, ts_a.sy, ts_a.tx, ts_a.ty
     );
     if let Some((x, y)) = first {
         let ia = ((y * w + x) * 4) as usize;
         let ib = (((y as i32 + dy) as u32 * w + (x as i32 + dx) as u32) * 4) as usize;
         out.push_str(&format!(
-            ",\"first\":[{},{}],\"pxA\":[{},{},{},{}],\"pxB\":[{},{},{},{}]",
-            x, y, da[ia], da[ia + 1], da[ia + 2], da[ia + 3], db[ib], db[ib + 1], db[ib + 2], db[ib + 3]
+            ",\"dbox\":[{},{},{},{}],\"first\":[{},{}],\"pxA\":[{},{},{},{}],\"pxB\":[{},{},{},{}]",
+            dbox.0, dbox.1, dbox.2, dbox.3, x, y, da[ia], da[ia + 1], da[ia + 2], da[ia + 3], db[ib], db[ib + 1], db[ib + 2], db[ib + 3]
         ));
     }
     if emit {
